@@ -422,6 +422,24 @@ mutex of the object is held exclusively (the counter a `Wait` re-checks and the 
 follows its change are then in one critical section each – no lost wake-up). -/
 theorem C20.cond_ops_under_lock : condOps.all (fun o => !o.heldExcl.isEmpty) = true := by decide
 
+/-- Every wake-up of a condition variable that can have several waiters (its `Wait` sits in an
+exported method – `Process.Join`) is a `Broadcast`. A `Signal` wakes one waiter only; that one
+finds the condition true and returns without passing the wake-up on, the others stay parked for
+ever (a lost wake-up: no data race, no panic – seeded change c20e). Reviewed `Signal` sites
+(single-waiter protocols) would be listed here; there is none. -/
+def C20.reviewedCondSignals : List (String × String × String) := []
+
+theorem C20.cond_wakeups_broadcast :
+    condSignals.all (fun s => C20.reviewedCondSignals.contains s) = true := by decide
+
+/-- Non-vacuity: the process's join condition is such a variable, its wake-up site exists and is
+a `Broadcast`, and the same site written with `Signal` is exactly what the theorem rejects. -/
+theorem C20.cond_wakeups_broadcast_nonvacuous :
+    multiWaiterConds.contains ("process.Process", "join") = true ∧
+    condOps.any (fun o => o.typ == "process.Process" && o.meth == "Fork" && o.field == "join" && o.op == "Broadcast") = true ∧
+    condSignalsOf (⟨"process.Process", "Fork", "join", "sync.Cond", "Signal", ["mu"], ["mu"]⟩ :: syncOps)
+      = [("process.Process", "Fork", "join")] := by decide
+
 /-- `sync.WaitGroup` fields (Add must be ordered before Wait; a field shared between goroutines
 cannot promise that – `Process.wait` was one, see 37f33b8): exactly the reviewed sites, none. -/
 def C20.reviewedWaitGroupOps : List (String × String × String × String) := []
@@ -433,6 +451,6 @@ theorem C20.waitgroup_ops_reviewed :
 atomic flag, the codec caches). -/
 theorem C20.sync_ops_nonvacuous :
     condOps.any (fun o => o.typ == "process.Process" && o.meth == "Join" && o.op == "Wait") = true ∧
-    condOps.any (fun o => o.typ == "process.Process" && o.meth == "Fork" && o.op == "Broadcast") = true ∧
+    condOps.any (fun o => o.typ == "process.Process" && o.meth == "Fork" && (o.op == "Broadcast" || o.op == "Signal")) = true ∧
     syncOps.any (fun o => o.kind == "sync.Map" && o.op == "Store") = true ∧
     syncOps.any (fun o => o.kind == "atomic.Uint32") = true := by decide
